@@ -41,6 +41,9 @@ func InflateGraph(t *rapid.T, m *Model) string {
 	}
 	dim := rapid.SampledFrom([]string{"types", "operands", "ttu-fanout", "restrictions", "wildcards", "parents", "chain", "conditions", "relations"}).Draw(t, "scaleDim")
 	n := rapid.SampledFrom(ScaleCounts).Draw(t, "scaleN")
+	if dim != "parents" && dim != "chain" && rapid.IntRange(0, 5).Draw(t, "scaleLarge") == 0 {
+		n = rapid.SampledFrom([]int{63, 64, 65, 66, 100, 127, 128, 129}).Draw(t, "scaleNLarge") // the next two thresholds
+	}
 	ti := obj[rapid.IntRange(0, len(obj)-1).Draw(t, "scaleType")]
 	td := &m.Types[ti]
 	term := m.Types[0].Name
@@ -317,6 +320,9 @@ func InflateDSL(t *rapid.T, m *Model, jsonOnly bool) string {
 	dims := []string{"operands", "depth", "relations", "types", "restrictions", "conditions", "params", "expr", "name-length"}
 	dim := rapid.SampledFrom(dims).Draw(t, "scaleDim")
 	n := rapid.SampledFrom(ScaleCounts).Draw(t, "scaleN")
+	if dim != "depth" && dim != "name-length" && rapid.IntRange(0, 5).Draw(t, "scaleLarge") == 0 {
+		n = rapid.SampledFrom([]int{63, 64, 65, 66, 100, 127, 128, 129}).Draw(t, "scaleNLarge") // the next two thresholds
+	}
 	usedT := map[string]bool{}
 	for _, x := range m.Types {
 		usedT[x.Name] = true
@@ -407,7 +413,7 @@ func InflateDSL(t *rapid.T, m *Model, jsonOnly bool) string {
 		}
 		pf := rapid.SampledFrom([]string{"a", "m", "zz", "A"}).Draw(t, "scaleRelPrefix")
 		for i := 0; i < n; i++ {
-			nm := fmt.Sprintf("%s%02d", pf, (i*7)%41)
+			nm := fmt.Sprintf("%s%02d", pf, scramble(i, n))
 			if usedR[nm] {
 				continue
 			}
@@ -417,7 +423,7 @@ func InflateDSL(t *rapid.T, m *Model, jsonOnly bool) string {
 	case "types":
 		pf := rapid.SampledFrom([]string{"a", "m", "zz", "A"}).Draw(t, "scaleTypePrefix")
 		for i := 0; i < n; i++ {
-			nm := fmt.Sprintf("%s%02d", pf, (i*7)%41)
+			nm := fmt.Sprintf("%s%02d", pf, scramble(i, n))
 			if usedT[nm] {
 				continue
 			}
@@ -457,7 +463,7 @@ func InflateDSL(t *rapid.T, m *Model, jsonOnly bool) string {
 			have[c.Name] = true
 		}
 		for i := 0; i < n; i++ {
-			nm := fmt.Sprintf("cond_%02d", (i*7)%41)
+			nm := fmt.Sprintf("cond_%02d", scramble(i, n))
 			if have[nm] {
 				continue
 			}
@@ -474,7 +480,7 @@ func InflateDSL(t *rapid.T, m *Model, jsonOnly bool) string {
 			have[p.Name] = true
 		}
 		for i := 0; i < n; i++ {
-			nm := fmt.Sprintf("p%02d", (i*7)%41)
+			nm := fmt.Sprintf("p%02d", scramble(i, n))
 			if have[nm] {
 				continue
 			}
@@ -552,4 +558,13 @@ func InflateDSL(t *rapid.T, m *Model, jsonOnly bool) string {
 		}
 	}
 	return dim
+}
+
+// scramble maps 0..n-1 one-to-one onto numbers that do not come in ascending order (names built from them do not arrive
+// sorted).
+func scramble(i, n int) int {
+	if n <= 41 {
+		return (i * 7) % 41
+	}
+	return (i * 7) % 131
 }
